@@ -433,7 +433,7 @@ def nt_cvx(case):
 
 
 SUBCHECKS = [
-    SubCheck("index_model", check_index_model, _index_case, nt_index, quick=24000, thorough=400000),
+    SubCheck("index_model", check_index_model, _index_case, nt_index, quick=24000, thorough=400000, fuzz=20000),
     # larger systems (up to 12 subsystems in drawn order, total dimension up to 256): the property is not bounded in size
     SubCheck("index_model_large", check_index_model, lambda: _index_case(nmax=12, budget=256, shuffle=True), nt_index, quick=1200, thorough=24000),
     SubCheck("linear_trace", check_linear_trace, _linear_case, nt_linear, quick=7000, thorough=120000),
